@@ -353,6 +353,11 @@ func (engC16) Gen(r *Rng, s *Script, idx int, tier string) {
 				}
 			}
 		}
+		if r.Chance(1, 4) {
+			// a render that fails (unknown decoration) before the others: whatever a
+			// failed render leaves behind in the process must not reach other tables
+			steps = append(steps, Step{Op: "render", A: FmtText, B: 7, C: ViaFresh})
+		}
 		for i := r.Range(2, 6); i > 0; i-- {
 			st := genRenderStep(r, 0)
 			if focus >= 0 && r.Chance(2, 3) {
